@@ -88,6 +88,14 @@ def length_programs(tier):
         for text in unaligned:
             for wrap in ("LEN({})", "({}).size"):
                 progs.append(Program(wrap.format(text), [srcs[0], R2], ordered=False, family="F06-len", note="unaligned/" + ("LEN" if "LEN" in wrap else "size") , env_globals=g))
+        # parquet datasets: lengths come from the file statistics (fsspec: plan statistics, arrow: row-group metadata), also under partition
+        # selections, column selections and multi-file fused reads
+        for how in ("parquet", "parquet-arrow"):
+            psrc = [Src("L", nrows + 1, K, nparts + 1, how=how)]
+            for text in ["L", "L[['a']]", "L[['c', 'a']]", "L.a", "L.partitions[[1]]", "L.partitions[[2, 0]]", "L[['a']].partitions[[1, 3]]", "L.partitions[[3]][['b']]", "(L + 1)[['c']]", "L[['a']].fillna(1).partitions[[0]]",
+                         "L.index", "dx.concat([L[['a']], L[['a']]])", "L[['a', 'c']].assign(z=1)", "L.partitions[[1, 2]].partitions[[1]]"]:
+                for wrap in ("LEN({})", "{}.size"):  # the internal Lengths expression is not reachable from the public API for a parquet source
+                    progs.append(Program(wrap.format(text), psrc, ordered=False, family="F06-len", note=f"{how}/" + (wrap.split("(")[0].strip("{}.") or "size"), env_globals=g))
         for text in [n.text for n in nodes] + extra:
             s2 = srcs + ([R] if "R," in text or "R)" in text else [])
             for wrap in ("LEN({})", "{}.size", "LENGTHS({})"):
